@@ -510,7 +510,7 @@ func init() {
 
 func init() {
 	properties["C05"] = &property{
-		explanation: "Decides the 'never modify an operand that is not the receiver' clause of C05 by MODSET.mat — parameter write summaries of every function reachable from mat (SSA, level-sensitive points-to with escape summaries, VTA call graph, noasm bodies for the kernels): no exported function or method of mat may write through a matrix-typed parameter other than the receiver or a parameter named dst (187 parameters; accessor calls through the read-only Matrix interfaces are trusted not to write). It also decides the 'partial overlap panics instead of returning' mechanism of C05 for every exported pointer-receiver method of the overlap-aware mat types (Dense, VecDense, SymDense, TriDense, CDense and the band/diag/tridiag types; ...To(dst) methods use dst as destination): OVERLAP.guard — a forward must-analysis over each method's CFG proves that at every kernel write of the destination (blas64/lapack64/asm call, copy or Data store) every operand whose raw storage is read by that same statement has, on every path, passed a checkOverlap*/isolatedWorkspace guard, an identity test (recv == operand edge), the isolated-workspace edge (restore != nil), or delegation to a method that guards it; a failed type assertion makes the guard vacuous (no storage to compare). OVERLAP.iso — every isolatedWorkspace restore closure is deferred or called. OVERLAP.elemsize — in both the default and the safe build the address difference of two slices is divided by the size of exactly their element type. OVERLAP.symmetric — the two overlap predicates (checkOverlap, checkOverlapComplex) hand rectanglesOverlap only arguments that treat both operands alike, apart from the columns they swap explicitly (overlap is a symmetric relation; `a.Stride` for `min(a.Stride, b.Stride)` is reported); TWIN.shadow — checkOverlapComplex ('generate this file from shadow.go') is the image of checkOverlap. Copy/Clone methods (memmove semantics) are out of scope. Does NOT decide correctness of the modular arithmetic inside rectanglesOverlap and offset, Dense.Copy's direction choice, or generic At/set loops over operands of unknown type; user-defined Matrix implementations whose accessors write are outside MODSET's assumption. OVERLAP.extent — the storage offset returned by offset/offsetComplex is compared only with zero or with the storage length len(x.Data) of an operand, never with a logical element count, which ignores stride and increment.",
+		explanation: "Decides the 'never modify an operand that is not the receiver' clause of C05 by MODSET.mat — parameter write summaries of every function reachable from mat (SSA, level-sensitive points-to with escape summaries, VTA call graph, noasm bodies for the kernels): no exported function or method of mat may write through a matrix-typed parameter other than the receiver or a parameter named dst (187 parameters; accessor calls through the read-only Matrix interfaces are trusted not to write). It also decides the 'partial overlap panics instead of returning' mechanism of C05 for every exported pointer-receiver method of the overlap-aware mat types (Dense, VecDense, SymDense, TriDense, CDense and the band/diag/tridiag types; ...To(dst) methods use dst as destination): OVERLAP.guard — a forward must-analysis over each method's CFG proves that at every kernel write of the destination (blas64/lapack64/asm call, copy or Data store) every operand whose raw storage is read by that same statement has, on every path, passed a checkOverlap*/isolatedWorkspace guard, an identity test (recv == operand edge), the isolated-workspace edge (restore != nil), or delegation to a method that guards it; a failed type assertion makes the guard vacuous (no storage to compare). OVERLAP.iso — every isolatedWorkspace restore closure is deferred or called. OVERLAP.elemsize — in both the default and the safe build the address difference of two slices is divided by the size of exactly their element type. OVERLAP.symmetric — the two overlap predicates (checkOverlap, checkOverlapComplex) hand rectanglesOverlap only arguments that treat both operands alike, apart from the columns they swap explicitly (overlap is a symmetric relation; `a.Stride` for `min(a.Stride, b.Stride)` is reported); TWIN.shadow — checkOverlapComplex ('generate this file from shadow.go') is the image of checkOverlap. Copy/Clone methods (memmove semantics) are out of scope. Does NOT decide correctness of the modular arithmetic inside rectanglesOverlap and offset, Dense.Copy's direction choice, or generic At/set loops over operands of unknown type; user-defined Matrix implementations whose accessors write are outside MODSET's assumption. OVERLAP.extent — the storage offset returned by offset/offsetComplex is compared only with zero or with the storage length len(x.Data) of an operand, never with a logical element count, which ignores stride and increment; OVERLAP.lattice — and reduced by an increment only with the remainder operator (found and repaired: (*VecDense).checkOverlap used off&inc). MAT.doublepass — no loop that stores receiver elements from operand elements can fall through into a second top-level loop storing the same elements (found and repaired: DivElemVec's strided arm divided twice when the receiver was an operand).",
 		assumptions: commonAssumptions,
 		run: func(tier string, res *core.Result) {
 			mg := matargs.Run(def).Only("MAT.guardorder")
@@ -536,7 +536,11 @@ func init() {
 			res.Merge(overlap.RunSymmetric(def))
 			ex := overlap.RunExtent(def)
 			ex.Floor("offset_comparisons", 5)
+			ex.Floor("offset_lattice_tests", 1)
 			res.Merge(ex)
+			dp := matargs.RunDoublePass(def)
+			dp.Floor("ordered_pairs_of_element_passes", 8)
+			res.Merge(dp)
 			sh := twin.Run(twin.Which{Shadow: true})
 			sh.Floor("shadow_twin_pairs", 1)
 			res.Merge(sh)
@@ -877,6 +881,10 @@ func dump(argv []string) {
 		res = globalx.RunDecls(def, core.Pkgs(argv[1:]...), nil)
 	case "nilguard":
 		res = decode.RunNilGuard(def, core.Pkgs(argv[1:]...))
+	case "extent":
+		res = overlap.RunExtent(def)
+	case "doublepass":
+		res = matargs.RunDoublePass(def)
 	case "workquery":
 		res = flagx.RunWorkQuery(def, core.Pkgs(argv[1:]...))
 	case "betascale":
